@@ -412,7 +412,8 @@ def replay(ctx: Ctx, rec):
 LEVEL_TEXT = ("Lean 4 theorems (unbounded in byte strings, ranges, write sets, completion orders and call sequences): "
               "read-after-write, ranged read = exact slice, missing path raises, writes to distinct paths commute, and "
               "MemoryviewStream refines io.BytesIO for every call sequence. The model is tied to the real FSStoragePlugin / "
-              "MemoryviewStream by differential runs on every check; the property oracle is also evaluated on the real code.")
+              "MemoryviewStream by differential runs on every check; the property oracle is also evaluated on the real code."
+              ' The write path is modelled down to write(2): for every pattern of short writes and failures a write that returns has stored the whole buffer, and under a file-size limit an oversized write raises (C20_write_returns_complete, C20_write_under_size_limit).')
 LEVEL_NOTE = ("Trusted: Lean kernel (+propext, Classical.choice, Quot.sound), the hand model lean/TsModel/Storage.lean, "
               "the harness; aiofiles/OS behaviour and CPython's BytesIO are assumed, sampled not proved.")
 TECHNIQUE = "Lean 4 proof over executable model + differential correspondence with the real plugin/stream"
